@@ -5,7 +5,8 @@ Stage A: TLC checks IdAllocImpl (the allocator as implemented) exhaustively for 
 Stage B: every edge of that state graph (printed by TLC) is replayed on the real allocator;
          TLC -simulate chooses long histories over larger ranges; the driver records seeded histories.
 Stage C: all observed histories are validated by TLC against the abstract IdAlloc (verdict) and the
-         implementation-shaped model (information)."""
+         implementation-shaped model (information).
+Added after seeded round 3: allocators spanning more than 2^16 / 2^24 identifiers driven at narrowing boundaries; histories of 6 000 / 40 000 calls on one allocator; state-guided steering through the snapshot hook (the verdict stays with the abstract model)."""
 import json, os, sys
 sys.path.insert(0, os.path.dirname(os.path.dirname(os.path.abspath(__file__))))
 from vlib import *
